@@ -233,33 +233,45 @@ class NsStream(_ProgStream):
         return {"base": lc.canon_model_outcome(mobs[0], False), "results": [lc.canon_model_outcome(m, True) for m in mobs[1:]]}
 
     def oracle(self, case, obs):
+        vs = self.all_violations(case, obs)
+        if not vs:
+            return None
+        # the limit-0 reading is a listed finding with its own signature: report anything else first, so that it can
+        # never hide a different violation found in the same sweep
+        other = [v for v in vs if v[0] != "ns|limit=0|not-enforced"]
+        return (other or vs)[0]
+
+    def all_violations(self, case, obs):
         base = obs["base"]
+        out = []
         if not obs["probe_same"]:
-            return ("ns|huge-limit-differs", "a namespace limit of 10**9 changed the outcome")
+            out.append(("ns|huge-limit-differs", "a namespace limit of 10**9 changed the outcome"))
         ok_seen = None
         for M, r, log in zip(obs["limits"], obs["results"], obs["logs"]):
             if r[0] == "ok":
                 if r[:2] != base[:2]:
-                    return ("ns|limit-altered-output", f"limit {M}: output differs from the unlimited render")
+                    out.append(("ns|limit-altered-output", f"limit {M}: output differs from the unlimited render"))
                 if M == 0:
                     if any(t > 0 for _, t in log):
-                        return ("ns|limit=0|not-enforced", f"local_namespace_limit=0: render completed holding {max(t for _, t in log)} bytes of locals")
+                        out.append(("ns|limit=0|not-enforced", f"local_namespace_limit=0: render completed holding {max(t for _, t in log)} bytes of locals"))
                 else:
                     for meas, true in log:
                         if meas != true:
-                            return ("ns|carry-not-included", f"limit {M}: get_size_of_locals()={meas} but the contexts on the parent chain hold {true}")
+                            out.append(("ns|carry-not-included", f"limit {M}: get_size_of_locals()={meas} but the contexts on the parent chain hold {true}"))
+                            break
                         if meas > M:
-                            return ("ns|exceeds-limit", f"limit {M}: completed render measured {meas}")
+                            out.append(("ns|exceeds-limit", f"limit {M}: completed render measured {meas}"))
+                            break
                     if ok_seen is None:
                         ok_seen = M
                     if base[0] == "ok" and obs["max_true"] > M:
-                        return ("ns|over-limit-not-raised", f"unlimited render holds {obs['max_true']} bytes, limit {M} did not raise")
+                        out.append(("ns|over-limit-not-raised", f"unlimited render holds {obs['max_true']} bytes, limit {M} did not raise"))
             else:
                 if r[1] != "LocalNamespaceLimitError" and r != base:
-                    return (f"ns|other-error|{r[1]}", f"limit {M}: raised {r[1]}")
+                    out.append((f"ns|other-error|{r[1]}", f"limit {M}: raised {r[1]}"))
                 if ok_seen is not None and r != base:
-                    return ("ns|not-monotone", f"succeeded under {ok_seen} but failed under the larger limit {M}")
-        return None
+                    out.append(("ns|not-monotone", f"succeeded under {ok_seen} but failed under the larger limit {M}"))
+        return out
 
     def nontrivial(self, case, obs):
         if obs["base"][0] != "ok":
